@@ -672,8 +672,12 @@ def stored_value_problems(p):
 class ModelHist(Engine):
     name = "modelhist"
     props = ("C22", "C23", "C24")
-    nruns = {"quick": 3000, "thorough": 300000}
-    budgets = {"quick": 40.0, "thorough": 540.0}
+    budgets = {"quick": 60.0, "thorough": 540.0}
+
+    @property
+    def nruns(self):
+        # the permutation histories of C24 are short; the replica histories of C22 / C23 are not
+        return {"quick": 8000 if self.prop == "C24" else 4000, "thorough": 300000}
     real_components = (
         "Problem, ContingentProblem (clone, __eq__, kind)", "InstantaneousAction, DurativeAction (clone, effects, "
         "conflict bookkeeping)", "FluentsSetMixin, InitialStateMixin, TimedCondsEffs, MetricsMixin",
